@@ -94,13 +94,19 @@ func (d *duplex) Read(b []byte) (int, error) {
 			n := copy(b, d.in[0])
 			if n == len(d.in[0]) {
 				d.in = d.in[1:]
+				if len(d.in) == 0 && d.inEnd == "eof+" {
+					// the last octets arrive together with the end of the stream in one Read (as crypto/tls does when a
+					// close_notify alert follows the last record)
+					d.inEnd = "eof"
+					return n, io.EOF
+				}
 			} else {
 				d.in[0] = d.in[0][n:]
 			}
 			return n, nil
 		}
 		switch d.inEnd {
-		case "eof":
+		case "eof", "eof+":
 			return 0, io.EOF
 		case "timeout":
 			return 0, timeoutErr{}
